@@ -6,6 +6,7 @@ import Poulpy.Lemmas.ExpandIdx
 import Poulpy.Lemmas.ExpandPhase
 import Poulpy.Lemmas.NegHal
 import Poulpy.Lemmas.EpBridge
+import Poulpy.Lemmas.EpKs
 import Poulpy.Model.Core.Mul
 import Poulpy.Props.C03
 
@@ -355,12 +356,121 @@ example : Ks.phaseRow [] ((Core.gglweProductDft [[[2]]]
       { base2k := 4, n := 1, colsIn := 1, colsOut := 1, dsize := 1, dnum := 1, size := 1, cells := [[[[3]]]] } 1 [[[9]]]).map
         (fun col => limbOr0 1 col 0)) = [6] := by decide
 
-/-
-NOT PROVED: the phase statement of `Core.epInternal` for `dsize > 1` (its loop differs from `gglwe_product_dft` only by
-the missing `.min(dnum)` on the digit buffer, which `vmp` truncates anyway — `C07.vmp_row_truncation`; the accumulation
-lemma `C03.product_accum_dsize_gt1` is proved for the clamped loop and is not transported); for `dsize > 1` the
-layer-B identity (`ep_identity` per pass via `vmp_phase`, C03's regrouping lemmas) is therefore about `Hal.vmpFlat`, not
-about `epInternal`.  Determinacy (`epInternal_determined`) holds for every `dsize`.
--/
+/-! ## The executed external product for every digit size -/
+
+/-- **The executed `glwe_external_product_internal` is C03's `gglwe_product_dft`** on the GGSW seen as a key with `rank+1`
+input columns — for every digit size and any prior content of the two scratch buffers.  (The external product does not clamp
+its digit buffer to `dnum` rows; the vector-matrix product reads at most `dnum` rows anyway.) -/
+theorem epInternal_eq_gglwe_product (a : List Col) (g : EpGGSW) (res0 tmp0 : List Col) (hd : 1 ≤ g.dsize)
+    (ha : shapeOk g.n (g.rank + 1) (a.getD 0 []).length a = true)
+    (h0 : shapeOk g.n (g.rank + 1) g.size res0 = true) (ht : shapeOk g.n (g.rank + 1) g.size tmp0 = true) :
+    epInternal a g res0 tmp0 =
+      (List.range (g.rank + 1)).map
+        (Ks.gglweProductDft (mkBuf g.n (g.rank + 1) g.size res0) (mkBuf g.n (g.rank + 1) (a.getD 0 []).length a) g.toKey).act :=
+  epInternal_eq_ks a g res0 tmp0 hd ha h0 ht
+
+example : epInternal [[[1], [2], [3]], [[0], [1], [0]]] staleG (zeroCols 1 2 4) (zeroCols 1 2 4) =
+    (List.range 2).map (Ks.gglweProductDft (mkBuf 1 2 4 (zeroCols 1 2 4)) (mkBuf 1 2 3 [[[1], [2], [3]], [[0], [1], [0]]]) staleG.toKey).act :=
+  epInternal_eq_gglwe_product _ staleG _ _ (by decide) (by decide) (by decide) (by decide)
+
+/-- **`ep_executed_phase`** — layer A for every `dsize ≥ 1`, on the executed definition: in `R N = ℤ[X]/(X^N+1)` the phase
+(under any secret) of limb `l` of what `Core.epInternal` returns is the abstract gadget accumulation `Gadget.acc` (the
+`dsize` passes with `(step, offset) = (dsize, dsize−1−di)`, `limb_offset = di` and the size truncation) summed over the
+`rank+1` input columns, with `a_i[m]` = limb `m` of input column `i` and `φ_i r l` = phase of limb `l` of GGSW row `r`,
+column `i`. -/
+theorem ep_executed_phase (N : Nat) (sk : List Poly) (a : List Col) (g : EpGGSW) (res0 tmp0 : List Col) (l : Nat)
+    (hd : 1 ≤ g.dsize) (hN : 0 < N) (hn : g.n = N)
+    (ha : shapeOk g.n (g.rank + 1) (a.getD 0 []).length a = true)
+    (h0 : shapeOk g.n (g.rank + 1) g.size res0 = true) (ht : shapeOk g.n (g.rank + 1) g.size tmp0 = true)
+    (hM : ∀ j q, (g.toPMat.entry j q).length = N) :
+    Ks.ι N (Ks.phaseRow sk ((epInternal a g res0 tmp0).map (fun col => limbOr0 N col l)))
+      = ∑ i ∈ Finset.range (g.rank + 1),
+          Gadget.acc g.size g.dsize g.dnum (a.getD 0 []).length
+            (Ks.inLimb N (mkBuf g.n (g.rank + 1) (a.getD 0 []).length a) i) (Ks.keyPhase N sk g.toPMat i) l := by
+  rw [epInternal_eq_ks a g res0 tmp0 hd ha h0 ht, List.map_map]
+  have s0 := (mkBuf_shape g.n (g.rank + 1) g.size res0 h0).1
+  exact C03.keyswitch_phase N sk (mkBuf g.n (g.rank + 1) g.size res0) (mkBuf g.n (g.rank + 1) (a.getD 0 []).length a) g.toKey l
+    hd hN s0.1 rfl rfl rfl (Nat.succ_pos _) hn hn rfl hM
+
+example (l : Nat) : Ks.ι 1 (Ks.phaseRow [[1]] ((epInternal [[[1], [2], [3]], [[0], [1], [0]]] staleG (zeroCols 1 2 4) (zeroCols 1 2 4)).map
+      (fun col => limbOr0 1 col l)))
+    = ∑ i ∈ Finset.range 2, Gadget.acc 4 3 1 3 (Ks.inLimb 1 (mkBuf 1 2 3 [[[1], [2], [3]], [[0], [1], [0]]]) i)
+        (Ks.keyPhase 1 [[1]] staleG.toPMat i) l :=
+  ep_executed_phase 1 [[1]] _ staleG _ _ l (by decide) (by decide) rfl (by decide) (by decide) (by decide)
+    (Ks.entry_length staleG.toPMat 1 rfl (by decide))
+
+/-- **`ep_executed_identity`** — the external-product identity on the executed model, every `dsize ≥ 1`, with the explicit
+dropped-limb terms.  If GGSW row `r`, input column `i` has phase value `m2·σ_i·β^{S−(r+1)·dsize} + E_{i,r}` (`β = 2^b`, `σ_0 = 1`,
+`σ_i = s_i`: what `ggsw_encrypt_sk` produces, checked cell by cell by the oracle), the value of the phase of the executed product is
+`m2 · Σ_i σ_i·usedVal(a_i)  +  Σ_i (Σ_r digit_{i,r}·E_{i,r} − dropped_i − β^S·head_i)`:
+`Σ_i σ_i·usedVal(a_i)` is the value of the phase of the decomposed GLWE over the limbs the gadget uses (all of them when
+`a_size ≤ dnum·dsize`, `C03.used_value_is_input_value`), `dropped` the product limbs cut by `res.set_size`, `β^S·head` a multiple of the
+torus modulus.  Holds for the GLWE, GGLWE and GGSW products (each cell), and for the accumulators of CMux and Cswap. -/
+theorem ep_executed_identity (N : Nat) (sk : List Poly) (a : List Col) (g : EpGGSW) (res0 tmp0 : List Col)
+    (β m2 : Ks.R N) (σ : ℕ → Ks.R N) (E : ℕ → ℕ → Ks.R N)
+    (hd : 1 ≤ g.dsize) (hN : 0 < N) (hn : g.n = N)
+    (ha : shapeOk g.n (g.rank + 1) (a.getD 0 []).length a = true)
+    (h0 : shapeOk g.n (g.rank + 1) g.size res0 = true) (ht : shapeOk g.n (g.rank + 1) g.size tmp0 = true)
+    (hM : ∀ j q, (g.toPMat.entry j q).length = N) (hS : g.dnum * g.dsize ≤ g.size)
+    (hkey : ∀ i, i < g.rank + 1 → ∀ r, r < g.dnum →
+      Gadget.val β g.size (Ks.keyPhase N sk g.toPMat i r) = m2 * σ i * β ^ (g.size - (r + 1) * g.dsize) + E i r) :
+    ∑ l ∈ Finset.range g.size,
+        Ks.ι N (Ks.phaseRow sk ((epInternal a g res0 tmp0).map (fun col => limbOr0 N col l))) * β ^ (g.size - 1 - l)
+      = m2 * ∑ i ∈ Finset.range (g.rank + 1),
+            σ i * Gadget.usedVal β g.size g.dsize g.dnum (a.getD 0 []).length
+              (Ks.inLimb N (mkBuf g.n (g.rank + 1) (a.getD 0 []).length a) i)
+        + ∑ i ∈ Finset.range (g.rank + 1),
+            (∑ r ∈ Finset.range g.dnum,
+                Gadget.digit β g.dsize g.dnum (a.getD 0 []).length (Ks.inLimb N (mkBuf g.n (g.rank + 1) (a.getD 0 []).length a) i) r * E i r
+              - Gadget.dropped β g.size g.dsize g.dnum (a.getD 0 []).length
+                  (Ks.inLimb N (mkBuf g.n (g.rank + 1) (a.getD 0 []).length a) i) (Ks.keyPhase N sk g.toPMat i)
+              - β ^ g.size * Gadget.head β g.dsize g.dnum (a.getD 0 []).length
+                  (Ks.inLimb N (mkBuf g.n (g.rank + 1) (a.getD 0 []).length a) i) (Ks.keyPhase N sk g.toPMat i)) := by
+  rw [epInternal_eq_ks a g res0 tmp0 hd ha h0 ht]
+  simp only [List.map_map]
+  have s0 := (mkBuf_shape g.n (g.rank + 1) g.size res0 h0).1
+  have h := C03.keyswitch_value N sk (mkBuf g.n (g.rank + 1) g.size res0) (mkBuf g.n (g.rank + 1) (a.getD 0 []).length a) g.toKey β
+    (fun i => m2 * σ i) E hd hN s0.1 rfl rfl rfl (Nat.succ_pos _) hn hn rfl hM hS hkey
+  refine Eq.trans h ?_
+  show ∑ i ∈ Finset.range (g.rank + 1), _ = _
+  rw [Finset.mul_sum, ← Finset.sum_add_distrib]
+  apply Finset.sum_congr rfl
+  intro i _
+  exact Core.ring_regroup _ _ _ _ _ _
+
+
+/-- entry points → the executed product: `glwe_external_product` (hence every cell of the GGLWE / GGSW forms, which call it)
+normalises `epInternal` of the radix-converted input with zeroed scratch … -/
+theorem glweExternalProduct_accumulator (big128 : Bool) (n rb rs : Nat) (a : List Col) (ab : Nat) (g : EpGGSW) (aConv : List Col)
+    (hg : (g.n == n && g.wf && shapeOk n (g.rank + 1) (a.getD 0 []).length a) = true)
+    (hc : epConvert n a ab g = some aConv) :
+    glweExternalProduct big128 n rb rs a ab g =
+      optOutcome ((epInternal aConv g (zeroCols n (g.rank + 1) g.size) (zeroCols n (g.rank + 1) g.size)).mapM
+        (fun c => epBigNormalize big128 n rb rs c g.base2k)) := by
+  unfold glweExternalProduct
+  simp only [hg, Bool.not_true, Bool.false_eq_true, if_false, hc]
+
+example : glweExternalProduct false 1 4 4 [[[1], [2], [3]], [[0], [1], [0]]] 4 staleG =
+    optOutcome ((epInternal [[[1], [2], [3]], [[0], [1], [0]]] staleG (zeroCols 1 2 4) (zeroCols 1 2 4)).mapM
+      (fun c => epBigNormalize false 1 4 4 c 4)) :=
+  glweExternalProduct_accumulator false 1 4 4 _ 4 staleG _ (by decide) (by decide)
+
+/-- … and `Cmux::cmux` / `Cswap::cswap` add `f` (resp. add / subtract from `res_a` / `res_b`) to `epInternal` of the difference:
+`ep_executed_identity` applied to `a := t − f` (resp. `res_b − res_a`) is the executed form of `cmux_selects` / `cswap_swaps`. -/
+theorem cmux_accumulator (big128 : Bool) (n rb rs : Nat) (t f : List Col) (g : EpGGSW) (res0 tmp0 : List Col)
+    (hg : (g.n == n && g.wf && rb == g.base2k && shapeOk n (g.rank + 1) (t.getD 0 []).length t
+       && shapeOk n (g.rank + 1) (f.getD 0 []).length f) = true) :
+    cmux big128 n rb rs t f g res0 tmp0 =
+      optOutcome ((List.range (g.rank + 1)).mapM (fun j =>
+        epBigNormalize big128 n rb rs
+          (bigAddSmallAssign big128 ((epInternal (glweSubSameRank n rs t f) g res0 tmp0).getD j []) (f.getD j [])) g.base2k)) := by
+  unfold cmux cmuxTail
+  simp only [hg, Bool.not_true, Bool.false_eq_true, if_false]
+
+example : cmux false 1 4 3 [[[1], [2], [3]], [[0], [1], [0]]] [[[0], [0], [1]], [[0], [0], [0]]] staleG (zeroCols 1 2 4) (zeroCols 1 2 4) =
+    optOutcome ((List.range 2).mapM (fun j => epBigNormalize false 1 4 3
+      (bigAddSmallAssign false ((epInternal (glweSubSameRank 1 3 [[[1], [2], [3]], [[0], [1], [0]]] [[[0], [0], [1]], [[0], [0], [0]]])
+        staleG (zeroCols 1 2 4) (zeroCols 1 2 4)).getD j []) ([[[0], [0], [1]], [[0], [0], [0]]].getD j [])) 4)) :=
+  cmux_accumulator false 1 4 3 _ _ staleG _ _ (by decide)
 
 end C04
